@@ -257,6 +257,8 @@ class Target:
                 out.append(f'#define NV_LOOPVAR_{f.cname}_{k} {nm}')
             for k, b in sorted(f.printer.loop_bounds.items()):
                 out.append(f'#define NV_LOOPBOUND_{f.cname}_{k} {b}')
+            for k, b in sorted(f.printer.loop_lhs.items()):
+                out.append(f'#define NV_LOOPLHS_{f.cname}_{k} {b}')
         # NV_LOOPBY_<c_name>_<counter>[_<n>]: a loop contract keyed by the loop's COUNTER (n-th loop with that counter, n >= 2) instead of
         # the loop's ordinal: it follows its loop when a maintainer reorders the loops of a function (swapped if / else arms, ...)
         for f in present:
